@@ -121,7 +121,14 @@ func verifEpilogue(e *vEnv, r step.RunningStep, closed bool) {
 var verifStageOrder = []string{"deploy", "deploy_failed", "enabling", "disabled", "starting", "running", "cancelled", "outputs", "crashed", "closed"}
 
 func verifStart(e *vEnv) step.RunningStep {
-	r, err := e.runnable().Start(map[string]any{"step": "wait"}, "s1", e.h)
+	// the runnable step comes from the real LoadSchema (scripted schema probe: deploys, reads the schema,
+	// closes), not from a hand-made struct; afterwards the environment behaves as the scenario configured it
+	lazy, dm, sm, slow := e.lazy, e.deployMode, e.schemaMode, e.slowClose
+	e.lazy, e.deployMode, e.schemaMode, e.slowClose = false, 0, 0, false
+	rn, err := VerifProvider(e).LoadSchema(map[string]any{"plugin": map[string]any{"src": "image", "deployment_type": "builtin"}}, nil)
+	e.lazy, e.deployMode, e.schemaMode, e.slowClose = lazy, dm, sm, slow
+	verifrt.Assert(err == nil, "LoadSchema succeeds")
+	r, err := rn.Start(map[string]any{"step": "wait"}, "s1", e.h)
 	verifrt.Assert(err == nil, "Start succeeds")
 	return r
 }
